@@ -3,7 +3,6 @@
 use crate::execution::chunk::DataChunk;
 use crate::execution::operators::OperatorError;
 use crate::execution::pipeline::{ChunkSizeHint, PushOperator, Sink};
-use crate::execution::selection::SelectionVector;
 use crate::execution::vector::ValueVector;
 use grafeo_common::types::{HashableValue, Value};
 use std::collections::HashSet;
@@ -102,11 +101,21 @@ impl PushOperator for DistinctPushOperator {
             return Ok(true);
         }
 
-        // Create filtered chunk with only new rows
-        let selection = SelectionVector::from_predicate(chunk.len(), |i| new_indices.contains(&i));
-        let filtered = chunk.filter(&selection);
+        // Copy the new rows (`new_indices` are physical positions) into a fresh chunk
+        let mut columns: Vec<ValueVector> = (0..chunk.column_count())
+            .map(|_| ValueVector::new())
+            .collect();
+        for &row in &new_indices {
+            for (col_idx, column) in columns.iter_mut().enumerate() {
+                let value = chunk
+                    .column(col_idx)
+                    .and_then(|c| c.get_value(row))
+                    .unwrap_or(Value::Null);
+                column.push(value);
+            }
+        }
 
-        sink.consume(filtered)
+        sink.consume(DataChunk::new(columns))
     }
 
     fn finalize(&mut self, _sink: &mut dyn Sink) -> Result<(), OperatorError> {
@@ -339,5 +348,29 @@ mod tests {
 
         assert_eq!(distinct.unique_count(), 4);
         assert_eq!(sink.row_count(), 4);
+    }
+
+    #[test]
+    fn test_distinct_on_chunk_with_selection_vector() {
+        use crate::execution::selection::SelectionVector;
+
+        // physical rows -5 1 -5 2 -5 1, of which positions 1, 3, 5 are selected
+        let mut chunk = create_test_chunk(&[-5, 1, -5, 2, -5, 1]);
+        let mut selection = SelectionVector::new_empty();
+        for i in [1, 3, 5] {
+            selection.push(i);
+        }
+        chunk.set_selection(selection);
+
+        let mut distinct = DistinctPushOperator::new();
+        let mut sink = CollectorSink::new();
+        distinct.push(chunk, &mut sink).unwrap();
+
+        let chunks = sink.into_chunks();
+        assert_eq!(chunks.len(), 1);
+        let col = chunks[0].column(0).unwrap();
+        assert_eq!(chunks[0].len(), 2);
+        assert_eq!(col.get_value(0), Some(Value::Int64(1)));
+        assert_eq!(col.get_value(1), Some(Value::Int64(2)));
     }
 }
